@@ -3,6 +3,8 @@
 package masswallet
 
 import (
+	"encoding/binary"
+
 	"massnet.org/mass-wallet/config"
 	"massnet.org/mass-wallet/masswallet/keystore"
 	"massnet.org/mass-wallet/masswallet/txmgr"
@@ -89,5 +91,52 @@ func VerifC18ImportWalletFault() {
 		rt.Assert(len(h.taskChan.C) == want, "one-rescan-task-iff-importing")
 		rt.Reach("imported")
 	}
+	rt.Reach("end")
+}
+
+// VerifC18AsyncRemoveRetry: the background removal of a wallet (the real asyncRemove: wallet-keyed deletions, the
+// sweep, DeleteWalletStatus, KeystoreManager.DeleteKeystore, and the cache repair after a failed last step) with the
+// n-th storage call failing - writes and commits included - and then, as the worker does with a failed task, run
+// again once storage works. A failed run reports an error; the repetition succeeds; and a run that reports
+// completion has left nothing of the wallet - no keystore bucket, no account-id entry, no status row, no balance
+// row, no cache entry. (DeleteKeystore evicts the wallet from the keystore cache inside the transaction; when the
+// commit then fails the cache has to be rebuilt from the store, or the repetition finds no wallet and reports a
+// removal that never happened.)
+func VerifC18AsyncRemoveRetry() {
+	s := c07Setup(0, 0)
+	v := make([]byte, 9)
+	binary.BigEndian.PutUint64(v, txmgr.WalletSyncedDone)
+	v[8] = txmgr.WalletFlagsRemove
+	s.st.WS.Set([]byte(c07Wallet), v)
+	keystore.VerifInstallKeystore(s.st.Ks, s.st.Root, c07Wallet)
+	// the wallet may be the one in use (UseWallet before RemoveWallet)
+	inUse := rt.NondetBool()
+	if inUse {
+		keystore.VerifSetCurrent(s.st.Ks, c07Wallet)
+	} else {
+		keystore.VerifSetCurrent(s.st.Ks, "")
+	}
+	s.st.DB.Calls = 0
+	s.st.DB.FaultWrites = true
+	s.st.DB.FaultAt = rt.NondetLen(0, 40)
+	err := s.h.asyncRemove(c07Wallet)
+	faulted := s.st.DB.FaultAt != 0 && s.st.DB.Calls >= s.st.DB.FaultAt
+	if faulted {
+		rt.Assert(err != nil, "storage-fault-is-reported")
+		rt.Reach("faulted")
+	}
+	if err != nil {
+		rt.Assert(faulted, "no-error-without-a-fault")
+		s.st.DB.FaultAt = 0
+		rt.Assert(s.h.asyncRemove(c07Wallet) == nil, "repetition-of-a-failed-removal-succeeds")
+	}
+	rt.Assert(!keystore.VerifKeystoreStored(s.st.Root, c07Wallet), "finished-removal-left-no-keystore-in-the-store")
+	rt.Assert(!keystore.VerifKeystoreCached(s.st.Ks, c07Wallet), "finished-removal-left-no-keystore-in-the-cache")
+	rt.Assert(s.st.WS.Lookup([]byte(c07Wallet)) == nil, "finished-removal-left-no-status-row")
+	rt.Assert(s.st.Bal.Lookup([]byte(c07Wallet)) == nil, "finished-removal-left-no-balance-row")
+	// C19: a request that looks an address up in the wallet in use (ValidateAddress -> IsAddressInCurrent) is answered
+	// with "no wallet in use" once the wallet in use has been removed - it does not crash on the evicted manager
+	_, lerr := s.st.Ks.GetManagedAddressByScriptHashInCurrent(make([]byte, 32))
+	rt.Assert(lerr != nil, "look-up-in-a-removed-wallet-in-use-is-refused")
 	rt.Reach("end")
 }
